@@ -164,14 +164,13 @@ def replacedText (sc : SCfg) (capsAtOf : Bytes → Nat → Option Caps) (names :
 
 /-- **Printed form of a replaced block**: when at least one match is kept, the block is printed from the
 replaced text, line by line — every line a record of its own (line number `ln + i`, the column of the first
-expansion on every line), a missing terminator completed. -/
+expansion on every line), with its own terminator (b0493c8), a missing one completed. -/
 theorem printReplacedBlock_eq (sc : SCfg) (c : StdCfg) (capsAtOf : Bytes → Nat → Option Caps)
     (names : List (Bytes × Nat)) (buf : Bytes) (rs re absOff : Nat) (ln : Option Nat) (tmpl : Bytes)
     (hml : sc.multiLine = true) (ho : c.onlyMatching = false) (hp : c.perMatch = false)
     (hs : Sane (capsAtOf (cutHaystack sc buf re)) (cutHaystack sc buf re).length)
     (hk : kept (capsAtOf (cutHaystack sc buf re)) (cutHaystack sc buf re) rs re
-      (isAtUnterminatedEnd sc.lt (cutHaystack sc buf re) rs re) ≠ [])
-    (hok : (splitLines sc.lt.asByte (replacedText sc capsAtOf names buf rs re tmpl)).all (crlfLineOk sc.lt) = true) :
+      (isAtUnterminatedEnd sc.lt (cutHaystack sc buf re) rs re) ≠ []) :
     ∃ k, printReplacedBlock sc c capsAtOf names buf rs re absOff ln tmpl =
       (blockRecords sc.lt c absOff ln (optIf c.column k) 0 0
         (splitLines sc.lt.asByte (replacedText sc capsAtOf names buf rs re tmpl))).flatMap (printRecord c) := by
@@ -193,7 +192,7 @@ theorem printReplacedBlock_eq (sc : SCfg) (c : StdCfg) (capsAtOf : Bytes → Nat
   unfold sinkBody
   simp only [hne, Bool.false_eq_true, ↓reduceIte, hml, Option.isSome_none, Bool.not_false, Bool.and_self]
   have hdst' : st.dst = replacedText sc capsAtOf names buf rs re tmpl := hdst
-  rw [sinkSlowMultiLine_eq sc c _ hspans ho hp (by simpa [hdst'] using hok)]
+  rw [sinkSlowMultiLine_eq sc c _ hspans ho hp]
   simp [hdst']
 
 /-- with no path, line number, column or byte offset a record is just its text -/
